@@ -33,29 +33,31 @@ Example C04_fixed_nodemult_sym :
   /\ exists g, read_cgsmiles fo0 (print true a) = Ok g /\ edge_get g 2 3 (S "order") = Some (VInt 2) /\ edge_get g 0 1 (S "order") = Some (VInt 1).
 Proof. vm_compute. repeat split. eexists. repeat split. Qed.
 
-(** UNBOUNDED, partial.  For every flat string of the grammar (Reader/Lin.v: chains, node
-    multipliers without a following symbol, nested branches in which no node closes two branches, every
-    bond-symbol position, single-digit and %nn ring bonds with symbols on the opening marker; strings in
-    braces) the reader model returns EXACTLY what the token machine denotes: the same graph with the same
-    node and edge iteration orders, or the same error (dangling ring, duplicate edge, annotation errors).
-    Missing from the full statement: the defect classes (refuted below). *)
+(** THE HEADLINE, UNBOUNDED, NO EXCLUDED CLASS.  For every base-graph string of the documented grammar
+    (well-formed AST: chains, nested branches - also several branches closing behind one node -, every
+    bond-symbol position, single-digit and %nn ring bonds with symbols on the opening marker, node
+    multipliers with or without a following symbol), printed in braces (base graphs) or without (coarse
+    fragment texts, also when they end in a %nn marker), the reader model returns EXACTLY what the
+    grammar denotes: the same graph with the same node and edge iteration orders, or the same error
+    (dangling ring, duplicate edge, annotation errors).  "Partial" only in that strings with BRANCH
+    multipliers are the subject of C05. *)
+Theorem C04_partial : forall fo braces a, wf fo a = true -> has_branch_mult a = false ->
+  read_cgsmiles fo (print braces a) = denote fo a.
+Proof. exact reader_sim_grammar. Qed.
+(** the same in the shape the check numbers defect classes (class_C04 is 0 for every AST now) *)
+Theorem C04_partial_class : forall fo braces a, wf fo a = true -> has_branch_mult a = false -> class_C04 braces a = 0%nat ->
+  read_cgsmiles fo (print braces a) = denote fo a.
+Proof. exact reader_sim_C04. Qed.
+(** the flat forms the proof goes through: items with any number of closings (Reader/ReaderX.v) and, as
+    used by other components, items with at most one closing (Reader/Lin.v) *)
+Theorem C04_xflat_strings : forall fo l, xlins_ok fo l = true -> l <> [] ->
+  read_cgsmiles fo ("{"%char :: xlins_str l ++ ["}"%char]) = denote_x fo l.
+Proof. exact reader_sim_x. Qed.
 Theorem C04_flat_strings : forall fo l, lins_ok fo l = true ->
   read_cgsmiles fo ("{"%char :: lins_str l ++ ["}"%char]) = denote_lin fo l.
 Proof. exact reader_sim_lin. Qed.
 Theorem C04_partial_flat : forall fo a, flat_ok fo a = true -> read_cgsmiles fo (print true a) = denote fo a.
 Proof. exact reader_sim_ast. Qed.
-(** THE HEADLINE, UNBOUNDED: for every base-graph string of the documented grammar (well-formed AST, printed
-    in braces, node multipliers with or without a following symbol) in which no node closes two branches
-    (the one remaining defect class, double_close) and that carries no branch multiplier (those are C05's
-    subject), the reader model returns exactly the denoted graph. *)
-Theorem C04_partial_wf : forall fo a, wf fo a = true -> has_branch_mult a = false ->
-  cls_double_close a = false -> read_cgsmiles fo (print true a) = denote fo a.
-Proof. intros fo a H1 H2 H3. apply reader_sim_ast. now apply flat_ok_of_wf. Qed.
-(** THE SAME FOR BOTH KINDS OF TEXT (base graphs in braces, coarse fragment texts without, also when they
-    end in a %nn marker), with the defect class as the check numbers it: class_C04 = 0 means outside double_close *)
-Theorem C04_partial : forall fo braces a, wf fo a = true -> has_branch_mult a = false -> class_C04 braces a = 0%nat ->
-  read_cgsmiles fo (print braces a) = denote fo a.
-Proof. exact reader_sim_C04. Qed.
 
 (** the ring table is independent of the branch and multiplier logic (used by C20): a graph is only
     returned when the marker trace of the text ends empty, whatever else the text contains *)
@@ -71,19 +73,29 @@ Example C04_partial_nonvacuous :
   let fo := fo_of_table [(S "1", Some (S "1.0"))] in
   flat_ok fo a = true /\ wf fo a = true /\ exists g, denote fo a = Ok g /\ length (nodes_data g) = 8%nat.
 Proof. vm_compute. repeat split. eexists. split; reflexivity. Qed.
+(** non-vacuity with three branches closing behind one node: {[#A]([#B]([#C]([#D])))=[#E]} *)
+Example C04_partial_nonvacuous_closings :
+  let a := [Item (S "A") [] None None
+              [Branch [Item (S "B") [] None None [Branch [Item (S "C") [] None None [Branch [nd "D"] None None]] None None]] None (Some SDouble)];
+            nd "E"] in
+  wf fo0 a = true /\ has_branch_mult a = false /\ xlins_ok fo0 (linearize_x a) = true
+  /\ print true a = S "{[#A]([#B]([#C]([#D])))=[#E]}"
+  /\ exists g, read_cgsmiles fo0 (print true a) = Ok g /\ edge_get g 0 4 (S "order") = Some (VInt 2).
+Proof. vm_compute. repeat split. eexists. split; reflexivity. Qed.
 Theorem C04_flat_covers_small :
-  forallb (fun a => negb (Nat.eqb (class_C04 true a) 0) || flat_ok fo_none a) small_c04 = true.
-Proof. exact C04_flat_small_list. Qed.
+  forallb (fun a => has_branch_mult a || xlins_ok fo_none (linearize_x a)) small_c04 = true.
+Proof. exact C04_xflat_small_list. Qed.
 
 (** BOUNDED: every AST of the complete enumerated list [small_c04] (bound = the enumerator parameters
-    recorded in Gen/ReaderEnumGen.v and Reader/ReaderSmall.v) is in the grammar, and outside the
-    defect class the model returns exactly the denoted graph (same iteration orders) *)
+    recorded in Gen/ReaderEnumGen.v and Reader/ReaderSmall.v) is in the grammar, and the model returns
+    exactly the denoted graph (same iteration orders); no AST is excluded (class_C04 = 0 everywhere) *)
 Theorem C04_small : forallb (fun a => wf fo_none a && c04_ok a) small_c04 = true.
 Proof. exact C04_small_list. Qed.
 Theorem C04_small_not_vacuous : (5000 <=? length (filter (fun a => Nat.eqb (class_C04 true a) 0) small_c04))%nat = true.
 Proof. exact C04_small_nonvacuous. Qed.
 
-Print Assumptions C04_partial_wf.
+Print Assumptions C04_partial_class.
+Print Assumptions C04_xflat_strings.
 Print Assumptions C04_ring_table_invariant.
 Print Assumptions C04_flat_strings.
 Print Assumptions C04_partial.
